@@ -2,6 +2,7 @@ import PoxModel.Proofs.Layout
 import PoxModel.Model.CodecMatch
 /-! Lemmas for the `ofp_match` hand model: the wildcard word survives the wire (`ofNat_toNat`), the 40 bytes decode to
     the values that were packed (`unpack_pack`), and the case analysis over the prerequisite lattice. Core only. -/
+set_option linter.unusedSimpArgs false
 namespace Pox.CodecMatch
 open Pox Pox.Layout
 
